@@ -223,6 +223,12 @@ class Interp:
             v = self.binop(st, cur, self.ev(st.value, env), st.op)
             if isinstance(st.target, ast.Name):
                 env[st.target.id] = v
+            elif isinstance(st.target, ast.Subscript):
+                # x[i] op= y is x[i] = x[i] op y: a store like any other
+                import copy as _copy
+                tgt_ = _copy.copy(st.target)
+                tgt_.ctx = ast.Store()
+                self.bind(tgt_, v, env, st)
         elif isinstance(st, ast.Expr):
             self.ev(st.value, env)
         elif isinstance(st, ast.Return):
